@@ -18,7 +18,9 @@ from vlib import core
 
 NAMES = ["a", "b", "src", "foo.py", "bar.txt", "x", "lib", "é", "a b", "data.bin", "B", "ab", "dist", "zz",
          "Ω.txt", "日本", ".hidden", "f[1]", "a.pyc", "q", "back\\slash", "a\\b", "sub", "d.link", "x~",
-         ".git", "\U0001F600", "neg", "keep.pyc", "y", "f"]
+         ".git", "\U0001F600", "neg", "keep.pyc", "y", "f",
+         # names that begin with a resolver scheme word: "file..." is a path, only "file:" is a scheme
+         "filelist.txt", "files", "file", "dirs", "directory.txt", "ostree-notes"]
 LINK_NAMES = ["lnk", "l2", "up", "ln k", "ü"]
 CONTENTS = [b"", b"hello\n", b"a\r\nb\r\n", b"\x00\x01\xff", b"x" * 5000, b"line\rline\r", b"caf\xc3\xa9\n", b"1", b"2",
             b"same", b"\r\n", b"mixed\n\r\n\r", b"a" * 4095 + b"\r\nb", b"a" * 4095 + b"\r", b"\r" * 4100 + b"\n",
